@@ -99,8 +99,9 @@ def np_dtype(fields):
                      for f in fields])
 
 
-def to_np(j):
-    """exact memory image -> numpy array with the requested memory layout"""
+def to_np(j, written=False):
+    """exact memory image -> numpy array with the requested memory layout (written: the call under test stores into
+    this array, so it must stay writeable)"""
     import numpy as np
     dt = np_dtype(j["fields"])
     shape = tuple(j["shape"])
@@ -123,6 +124,11 @@ def to_np(j):
         assert a.shape == shape
     elif lay == "recarray":
         a = a.view(np.recarray)
+    elif lay == "reversed" and a.ndim >= 1:
+        a = a[::-1].copy()[::-1]          # same logical content, negative stride along axis 0
+        assert a.shape == shape
+    elif lay == "readonly" and not written:
+        a.flags.writeable = False
     return a
 
 
@@ -155,7 +161,7 @@ def names_py(na):
     if f == "scalar":
         return np.str_(na["names"][0]) if na.get("npstr") else na["names"][0]
     if f == "list":
-        return list(na["names"])
+        return [np.str_(x) for x in na["names"]] if na.get("npstr") else list(na["names"])
     if f == "tuple":
         return tuple(na["names"])
     return np.array(na["names"], dtype=str) if na["names"] else np.array([], dtype="U1")
@@ -297,6 +303,10 @@ def gen_array(r, ctx, shape=None, nf=None, mode="any", avoid=(), names=None):
         lay = "strided"
     elif p < 0.4:
         lay = "recarray"
+    elif p < 0.5 and len(shape) >= 1:
+        lay = "reversed"
+    elif p < 0.6:
+        lay = "readonly"
     return {"shape": shape, "layout": lay, "fields": gen_fields(r, shape, nf, names=names, mode=mode, avoid=avoid)}
 
 
@@ -304,7 +314,7 @@ def gen_form(r, names, allow_scalar=True):
     forms = ["list", "tuple", "ndarray"]
     if len(names) == 1 and allow_scalar and r.random() < 0.5:
         return {"form": "scalar", "names": list(names), "npstr": r.random() < 0.3}
-    return {"form": r.choice(forms), "names": list(names)}
+    return {"form": r.choice(forms), "names": list(names), "npstr": r.random() < 0.15}
 
 
 def gen_selection(r, nm):
@@ -336,6 +346,65 @@ def gen_selection(r, nm):
         alt = n0.upper() if n0.upper() != n0 else n0.lower()
         sel = [alt] + r.sample(nm, r.randrange(0, len(nm)))
     return kind, sel
+
+
+# field names of which one CONTAINS others: a bare str must be ONE name, never a container searched by `in`
+CLUSTERS = [["ra", "err", "ra_err", "dec"], ["a", "b", "a_b", "k"], ["x", "y", "xy", "flux"], ["dec", "c", "de", "dec_err"],
+            ["id", "i", "d", "mid"], ["mag", "ma", "g", "mag_g"]]
+
+
+def gen_substr_case(r, ctx):
+    """array whose field names are substrings of one another + a bare-str selection that contains other names:
+    (array, names-arg, kind).  The long name is a field of the array or not (then nothing is selected)."""
+    cl = list(r.choice(CLUSTERS))
+    longest = max(cl, key=len)
+    present = r.random() < 0.6
+    nm = [n for n in cl if n != longest or present]
+    extra = r.sample([n for n in NAMES if n not in cl and not any(n in c or c in n for c in cl)], r.randrange(0, 2))
+    nm = nm + extra
+    r.shuffle(nm)
+    shape = gen_shape(r, ctx)
+    arr = gen_array(r, ctx, shape=shape, nf=len(nm), names=nm)
+    return arr, {"form": "scalar", "names": [longest], "npstr": r.random() < 0.3}, \
+        "substr-%s" % ("present" if present else "absent")
+
+
+# (measured: a long case costs ~7 ms per element in coqc — literal parsing + vm_compute — so quick stays at <= 1025
+# elements and one case per entry point; the anchored code has no element loops or buffers of its own, numpy's
+# same-type strided field copy is unbuffered)
+LONG_QUICK = [255, 257, 511, 513, 1023, 1025]
+LONG_THOROUGH = [1023, 1025, 4095, 4096, 4097, 8191, 8192, 8193]
+
+
+def gen_long_array(r, ctx, nf=None, names=None, avoid=()):
+    """1-d array around a power of two (block / buffer sizes of numpy's copy loops): few narrow fields"""
+    n = r.choice(LONG_QUICK if ctx.quick() else LONG_THOROUGH)
+    nf = nf or r.choice([2, 3])
+    pool = [x for x in NAMES if x not in avoid]
+    names = names or r.sample(pool, nf)
+    fields = []
+    for nmx in names:
+        t = r.choice(["<i4", ">i2", "|u1", "<f4", ">f8", "|S2", "<i8"])
+        sub = [] if r.random() < 0.8 else [2]
+        k = isize(t) * (2 if sub else 1)
+        # cheap but position-dependent content: element index folded into the bytes
+        cells = [((i * 2654435761 + len(nmx)) % (1 << (8 * k))).to_bytes(k, "little").hex() for i in range(n)]
+        if t[1] == "f":          # keep floats finite and non-NaN: small integers as floats
+            import numpy as np
+            vals = np.arange(n * (2 if sub else 1), dtype="f8") % 1000 - 500
+            raw = vals.astype(t).tobytes()
+            cells = [raw[i * k:(i + 1) * k].hex() for i in range(n)]
+        fields.append({"name": nmx, "type": t, "sub": sub, "cells": cells})
+    return {"shape": [n], "layout": r.choice(["C", "strided", "reversed", "readonly"]), "fields": fields}
+
+
+def n_long(ctx):
+    return 1
+
+
+def retype(r, arr):
+    """same shape/names, fresh element types and data: the call that follows an identical-looking call"""
+    return gen_array(r, None, shape=list(arr["shape"]), nf=len(arr["fields"]), names=[f["name"] for f in arr["fields"]])
 
 
 def rich(arr):
@@ -397,14 +466,33 @@ class _Select(Entry):
         r = ctx.rng
         cs = []
         for _ in range(ctx.n(220, 3000)):
-            arr = gen_array(r, ctx)
-            kind, sel = gen_selection(r, [f["name"] for f in arr["fields"]])
-            c = {"arr": arr, "names": gen_form(r, sel), "family": "%s/%s/%dd" % (kind, "?", len(arr["shape"]))}
-            c["family"] = "%s/%s/%dd" % (kind, c["names"]["form"], len(arr["shape"]))
+            p = r.random()
+            if p < 0.08:
+                arr, na, kind = gen_substr_case(r, ctx)
+                c = {"arr": arr, "names": na}
+            elif p < 0.16 and cs:
+                # twin: same names and selection as the previous call, other element types (a result must not
+                # depend on an earlier call)
+                prev = cs[-1]
+                c = {"arr": retype(r, prev["arr"]), "names": dict(prev["names"])}
+                kind = "twin"
+            else:
+                arr = gen_array(r, ctx)
+                kind, sel = gen_selection(r, [f["name"] for f in arr["fields"]])
+                c = {"arr": arr, "names": gen_form(r, sel)}
+            c["family"] = "%s/%s/%dd" % (kind, c["names"]["form"], len(c["arr"]["shape"]))
             if self.strict_arg:
                 c["strict"] = r.random() < 0.6
                 # strict mode is the documented default: leave the keyword out in some strict calls
                 c["omit_strict"] = c["strict"] and r.random() < 0.3
+            cs.append(c)
+        for _ in range(n_long(ctx)):
+            arr = gen_long_array(r, ctx)
+            nm = [f["name"] for f in arr["fields"]]
+            sel = r.sample(nm, r.randrange(1, len(nm)))
+            c = {"arr": arr, "names": gen_form(r, sel), "family": "long/%d" % arr["shape"][0]}
+            if self.strict_arg:
+                c["strict"], c["omit_strict"] = True, False
             cs.append(c)
         return cs
 
@@ -498,11 +586,12 @@ class Add(Entry):
                 add[r.randrange(len(add))]["name"] = r.choice(have)
             elif kind == "dup-in-add":
                 add.append(dict(add[0], type=gen_type(r)))
-            spelling = r.choice(["descr", "dtype", "native-order"])
+            spelling = r.choice(["descr", "dtype", "native-order", "dict"])
             dk = r.choice(["none", "none", "list", "list", "list", "single", "short", "long"])
             c = {"arr": arr, "add": add, "spelling": spelling}
             if dk == "none":
                 c["defaults"] = None
+                c["omit_defaults"] = r.random() < 0.5          # defaults=None is the default
             elif dk == "single":
                 d = add[0]
                 c["defaults"] = {"form": "single", "vals": [gen_dval(r, d["type"], arr["shape"], d["sub"])]}
@@ -516,6 +605,16 @@ class Add(Entry):
                     vals.append(gen_dval(r, "<i4", arr["shape"], []))
                 c["defaults"] = {"form": "list", "vals": vals}
             c["family"] = "%s/defaults=%s/%dd" % (kind, dk, len(arr["shape"]))
+            cs.append(c)
+        for _ in range(n_long(ctx)):
+            arr = gen_long_array(r, ctx)
+            have = [f["name"] for f in arr["fields"]]
+            add = [{"name": f["name"], "type": f["type"], "sub": f["sub"]}
+                   for f in gen_long_array(r, ctx, nf=r.choice([1, 2]), avoid=have)["fields"]]
+            c = {"arr": arr, "add": add, "spelling": "descr", "defaults": None, "family": "long/%d" % arr["shape"][0]}
+            if r.random() < 0.5:
+                c["defaults"] = {"form": "list", "vals": [gen_dval(r, d["type"], arr["shape"], d["sub"], forms=("scalar", "row"))
+                                                          for d in add]}
             cs.append(c)
         return cs
 
@@ -541,6 +640,8 @@ class Add(Entry):
 
         def f():
             spec = np.dtype(descr) if c["spelling"] == "dtype" else descr
+            if c["spelling"] == "dict":
+                spec = {"names": [d[0] for d in descr], "formats": [d[1] if len(d) == 2 else (d[1], d[2]) for d in descr]}
             dv = c["defaults"]
             if dv is None:
                 defaults = None
@@ -553,6 +654,8 @@ class Add(Entry):
                 defaults = vs[0] if dv["form"] == "single" else vs
             a = to_np(c["arr"])
             dirty_heap(nelem(c["arr"]["shape"]) * rowbytes(c["arr"]["fields"] + c["add"]))
+            if c.get("omit_defaults"):
+                return must_be_new(nu.add_fields(a, spec), a)
             return must_be_new(nu.add_fields(a, spec, defaults=defaults), a)
         return arr_out(f)
 
@@ -611,7 +714,16 @@ class Combine(Entry):
                 sh2 = r.choice(alts)
                 arrs[i] = gen_array(r, ctx, shape=list(sh2), nf=len(arrs[i]["fields"]),
                                     names=[f["name"] for f in arrs[i]["fields"]])
-            cs.append({"arrs": arrs, "family": "%s/n=%d/%dd" % (kind, len(arrs), len(shape))})
+            cs.append({"arrs": arrs, "container": r.choice(["list", "list", "tuple"]),
+                       "family": "%s/n=%d/%dd" % (kind, len(arrs), len(shape))})
+        for _ in range(n_long(ctx)):
+            a1 = gen_long_array(r, ctx)
+            a2 = gen_long_array(r, ctx, avoid=[f["name"] for f in a1["fields"]])
+            if a2["shape"] != a1["shape"] and r.random() < 0.7:        # mostly the same length
+                a2 = None
+                while a2 is None or a2["shape"] != a1["shape"]:
+                    a2 = gen_long_array(r, ctx, avoid=[f["name"] for f in a1["fields"]])
+            cs.append({"arrs": [a1, a2], "container": "list", "family": "long/%d" % a1["shape"][0]})
         return cs
 
     def impl(self, c):
@@ -620,7 +732,7 @@ class Combine(Entry):
             arrs = [to_np(a) for a in c["arrs"]]
             if arrs:
                 dirty_heap(nelem(c["arrs"][0]["shape"]) * rowbytes([x for a in c["arrs"] for x in a["fields"]]))
-            res = nu.combine_fields(arrs)
+            res = nu.combine_fields(tuple(arrs) if c.get("container") == "tuple" else arrs)
             # (a one-element list is returned as it is: `return arrlist[0]`; not demanded to be a copy)
             return must_be_new(res, *arrs) if len(arrs) >= 2 else res
         return arr_out(f)
@@ -649,7 +761,7 @@ class Copy(Entry):
         for _ in range(ctx.n(220, 3000)):
             a1 = gen_array(r, ctx)
             kind = r.choice(["same-shape", "same-shape", "same-shape", "same-shape", "size-differs", "lead-1",
-                             "incompatible-shape", "disjoint"])
+                             "incompatible-shape", "disjoint", "all-common-permuted"])
             shape = list(a1["shape"])
             n = nelem(shape)
             if kind == "size-differs":
@@ -661,19 +773,31 @@ class Copy(Entry):
             own = gen_array(r, ctx, shape=list(shape), nf=r.choice([1, 2, 3]), avoid=[f["name"] for f in a1["fields"]])
             common = [] if kind == "disjoint" else r.sample(a1["fields"], r.randrange(1, len(a1["fields"]) + 1))
             fs = list(own["fields"])
+            if kind == "all-common-permuted":      # exactly the same fields, in another order: matched by NAME
+                common, fs = list(a1["fields"]), []
             for f in common:          # same name, element type and sub-array shape; own data
                 g = {"name": f["name"], "type": f["type"], "sub": f["sub"],
                      "cells": [gen_cell(r, f["type"], f["sub"]).hex() for _ in range(nelem(shape))]}
                 fs.insert(r.randrange(0, len(fs) + 1), g)
             a2 = {"shape": shape, "layout": own["layout"], "fields": fs}
             cs.append({"a1": a1, "a2": a2, "family": "%s/%dd" % (kind, len(a1["shape"]))})
+        for _ in range(n_long(ctx)):
+            a1 = gen_long_array(r, ctx)
+            n = a1["shape"][0]
+            fs = [{"name": f["name"], "type": f["type"], "sub": f["sub"],
+                   "cells": ["00" * (len(f["cells"][0]) // 2)] * n} for f in a1["fields"]]
+            r.shuffle(fs)
+            if r.random() < 0.5:
+                fs.append({"name": "own_", "type": "<i2", "sub": [], "cells": ["0700"] * n})
+            cs.append({"a1": a1, "a2": {"shape": [n], "layout": r.choice(["C", "strided", "reversed"]), "fields": fs},
+                       "family": "long/%d" % n})
         return cs
 
     def impl(self, c):
         import esutil.numpy_util as nu
 
         def f():
-            a2 = to_np(c["a2"])
+            a2 = to_np(c["a2"], written=True)
             nu.copy_fields(to_np(c["a1"]), a2)
             return a2
         return arr_out(f)
@@ -698,10 +822,15 @@ class CopyByName(Entry):
         r = ctx.rng
         cs = []
         for _ in range(ctx.n(220, 3000)):
-            arr = gen_array(r, ctx)
-            fs = {f["name"]: f for f in arr["fields"]}
-            kind, sel = gen_selection(r, list(fs))
-            na = gen_form(r, sel)
+            if r.random() < 0.08:
+                arr, na, kind = gen_substr_case(r, ctx)
+                sel = na["names"]
+                fs = {f["name"]: f for f in arr["fields"]}
+            else:
+                arr = gen_array(r, ctx)
+                fs = {f["name"]: f for f in arr["fields"]}
+                kind, sel = gen_selection(r, list(fs))
+                na = gen_form(r, sel)
             vals = []
             for n in sel:
                 f = fs.get(n, {"type": "<i4", "sub": []})
@@ -717,7 +846,17 @@ class CopyByName(Entry):
             va = {"form": "single" if vk == "single" else "list", "vals": vals}
             if vk == "list" and not vals:
                 va = {"form": "list", "vals": []}
-            cs.append({"arr": arr, "names": na, "vals": va, "family": "%s/%s/vals=%s" % (kind, na["form"], vk)})
+            c = {"arr": arr, "names": na, "vals": va, "family": "%s/%s/vals=%s" % (kind, na["form"], vk)}
+            if vk == "list" and len(vals) == 1 and vals[0]["form"] == "scalar" and r.random() < 0.5:
+                c["vals_ndarray"] = True            # the values as a length-1 ndarray of the field's type
+                c["family"] += "-ndarray"
+            cs.append(c)
+        for _ in range(n_long(ctx)):
+            arr = gen_long_array(r, ctx)
+            f = r.choice(arr["fields"])
+            v = gen_dval(r, f["type"], arr["shape"], f["sub"], forms=("scalar", "row", "full"), native=False)
+            cs.append({"arr": arr, "names": gen_form(r, [f["name"]], allow_scalar=False), "vals": {"form": "list", "vals": [v]},
+                       "family": "long/%d/%s" % (arr["shape"][0], v["form"])})
         return cs
 
     def impl(self, c):
@@ -725,12 +864,16 @@ class CopyByName(Entry):
         fs = {f["name"]: f for f in c["arr"]["fields"]}
 
         def f():
-            a = to_np(c["arr"])
+            import numpy as np
+            a = to_np(c["arr"], written=True)
             vs = []
             for i, v in enumerate(c["vals"]["vals"]):
                 nm = c["names"]["names"][i] if i < len(c["names"]["names"]) else None
                 d = fs.get(nm, {"type": "<i4", "sub": []})
                 vs.append(dval_py(v, d["type"], c["arr"]["shape"], d["sub"]))
+            if c.get("vals_ndarray"):
+                d = fs.get(c["names"]["names"][0], {"type": "<i4", "sub": []})
+                vs = np.array(vs, dtype=d["type"])
             nu.copy_fields_by_name(a, names_py(c["names"]), vs[0] if c["vals"]["form"] == "single" else vs)
             return a
         return arr_out(f)
@@ -757,16 +900,27 @@ class Split(Entry):
         r = ctx.rng
         cs = []
         for _ in range(ctx.n(180, 2400)):
-            arr = gen_array(r, ctx)
-            if r.random() < 0.2:
+            p = r.random()
+            if p < 0.08:
+                arr, na, kind = gen_substr_case(r, ctx)
+            elif p < 0.28:
+                arr = gen_array(r, ctx)
                 na, kind = None, "all"
             else:
+                arr = gen_array(r, ctx)
                 kind, sel = gen_selection(r, [f["name"] for f in arr["fields"]])
                 na = gen_form(r, sel)
-                if na["form"] == "scalar":
-                    na["npstr"] = False
-            cs.append({"arr": arr, "names": na, "getnames": r.random() < 0.5,
+            if na is not None and na["form"] == "scalar":
+                na["npstr"] = False
+            gn = r.random() < 0.5
+            cs.append({"arr": arr, "names": na, "getnames": gn,
+                       "omit_kw": r.random() < 0.3,     # leave out fields=None / getnames=False (the defaults)
                        "family": "%s/%s/%dd" % (kind, na["form"] if na else "None", len(arr["shape"]))})
+        for _ in range(n_long(ctx)):
+            arr = gen_long_array(r, ctx)
+            nm = [f["name"] for f in arr["fields"]]
+            cs.append({"arr": arr, "names": gen_form(r, r.sample(nm, r.randrange(1, len(nm) + 1)), allow_scalar=False),
+                       "getnames": False, "omit_kw": False, "family": "long/%d" % arr["shape"][0]})
         return cs
 
     def impl(self, c):
@@ -775,8 +929,12 @@ class Split(Entry):
 
         def f():
             a = to_np(c["arr"])
-            res = nu.split_fields(a, fields=None if c["names"] is None else names_py(c["names"]),
-                                  getnames=c["getnames"])
+            kw = {}
+            if not (c.get("omit_kw") and c["names"] is None):
+                kw["fields"] = None if c["names"] is None else names_py(c["names"])
+            if not (c.get("omit_kw") and not c["getnames"]):
+                kw["getnames"] = c["getnames"]
+            res = nu.split_fields(a, **kw)
             names = []
             if c["getnames"]:
                 res, nm = res
@@ -789,6 +947,9 @@ class Split(Entry):
                 views.append({"type": v.dtype.str, "shape": [int(s) for s in v.shape],
                               "cells": [raw[i * cs_:(i + 1) * cs_].hex() for i in range(n)],
                               "is_view": bool(np.shares_memory(v, a)) if v.size and v.itemsize else True})
+            if not all(v["is_view"] for v in views):
+                # "splitting into per-field VIEWS" / docstring "a tuple of references to the individual fields"
+                raise AssertionError("split_fields returned a copy of a field, not a view of the data")
             return {"views": views, "names": names}
         return run_ok(f)
 
@@ -951,6 +1112,24 @@ class Compare(Entry):
             cs.append({"a1": a1, "a2": a2, "ignore_missing": im, "verbose": r.random() < 0.2,
                        "omit_kw": im and r.random() < 0.3,      # ignore_missing=True is the documented default
                        "family": "%s/%dd" % (kind, len(a1["shape"]))})
+        for _ in range(n_long(ctx)):
+            a1 = gen_long_array(r, ctx)
+            n = a1["shape"][0]
+            a2 = {"shape": [n], "layout": r.choice(["C", "strided", "reversed", "readonly"]),
+                  "fields": [dict(f, cells=list(f["cells"])) for f in a1["fields"]]}
+            kind = r.choice(["copy", "last-item", "block-edge-item"])
+            if kind != "copy":
+                f = r.choice(a2["fields"])
+                i = n - 1 if kind == "last-item" else r.choice([x for x in (255, 256, 511, 512, 1023, 1024, 4095, 4096, 8191, 8192) if x < n])
+                b = bytearray(bytes.fromhex(f["cells"][i]))
+                b[0] ^= 0x01 if f["type"][1] != "f" else 0x00
+                if f["type"][1] == "f":          # another finite value
+                    import numpy as np
+                    k = len(b)
+                    b = bytearray(np.array([777.0] * (k // isize(f["type"])), dtype=f["type"]).tobytes())
+                f["cells"][i] = bytes(b).hex()
+            cs.append({"a1": a1, "a2": a2, "ignore_missing": True, "verbose": False, "omit_kw": False,
+                       "family": "long-%s/%d" % (kind, n)})
         return cs
 
     def impl(self, c):
